@@ -30,10 +30,20 @@ Definition outcome_eqb (a b : outcome) : bool :=
   | _, _ => false
   end.
 
-(** launch case: the model's outcome for the scripted draws equals the observed one *)
+(** launch case: the model's outcome for the scripted draws equals the observed one.
+    One tolerance: "refused" on one side and "script ran out" on the other agree.  Which of the two
+    happens for an unplaceable launch under a too short script depends only on whether a test is made
+    before or after some sampling, which no caller can observe with a real random source (both mean
+    "no plan"; whether a refusal is legitimate is decided by the monitors, not by this comparison). *)
+Definition outcome_agree (model obs : outcome) : bool :=
+  match model, obs with
+  | Refused, OutOfDraws | OutOfDraws, Refused => true
+  | _, _ => outcome_eqb model obs
+  end.
+
 Definition lcase (ttl tick : N) (fleet : list hostspec) (shards : list shard_def)
            (regs : option regions) (ds : list N) (obs : outcome) : bool :=
-  outcome_eqb (launch ttl tick fleet shards regs ds) obs.
+  outcome_agree (launch ttl tick fleet shards regs ds) obs.
 
 (** request validation case: model of validateNodeHostRequest = observed (true = no panic) *)
 Definition vcase (q : request) (obs : bool) : bool := Bool.eqb (validate_request q) obs.
